@@ -11,6 +11,19 @@ TEXT = {
           "enoughPlasma over ledger states is covered by correspondence only.",
   "technique": "Lean 4 proof (omega/induction) + regenerated constants + differential correspondence",
  },
+ "C19": {
+  "text": "Kernel-checked theorems over the Go-faithful model of wallet/{derivation,keystore,keyfile,crypto,password}.go "
+          "with the primitives as parameters: isValidPath accepts exactly m(/<decimal below 2^32>')+, every HMAC step uses "
+          "an index in [2^31,2^32), DeriveForPath succeeds iff all segments are below 2^31 (DeriveWithIndex iff i < 2^31), "
+          "step input = 0x00||key||be32(i) injective, Decrypt(Encrypt(ks,pw),pw) = ks from open_seal, recorded address = "
+          "index-0 address, address = 0x00||sha3(pk)[:19], sign/verify from verify_sign; tied to the tree by regenerated "
+          "constants (regex text, ParseUint bit size, Argon2 parameters and AD string on both sides read from the AST) and "
+          "a differential stream on the real wallet code with independently computed oracle values.",
+  "design_ref": "§3 C19",
+  "note": "Tamper evidence (wrong password / flipped bit fails) is a cryptographic assumption, covered by the stream's "
+          "monitor only; the JSON text layer is covered by the stream only.",
+  "technique": "Lean 4 proof (induction/omega/simp) + regenerated facts from AST + differential correspondence with oracle tables",
+ },
  "C18": {
   "text": "Kernel-checked theorems that GetRange is the statement's slice for all (index,count,len), pages tile the "
           "list and each element lies on exactly one page; model tied by a differential stream over the full uint32 range.",
